@@ -5,18 +5,23 @@ diff(array(X)), diff(array(G)) of the *current* deques in this order, rows <= ma
 invariant XG_curvature and the IEEE sign axioms); invariant XG_genuine: every stored gradient is the (scaled) gradient
 at the stored point; stored arrays are never written in place (history_not_aliased).
 """
-from props._mainbased import main_property
+from props._mainbased import main_property, selector
+from units import kernels_unit
 
 PID = "C18"
 
 
 def check(tier, seed):
+    kn = kernels_unit.run_unit(tier)
     return main_property(
         PID, tier, seed, "proof",
-        "construction-site clauses + deque invariant (quantified over a symbolic-length deque), UF domain, z3.",
+        "construction-site clauses + deque invariant (quantified over a symbolic-length deque), UF domain, z3; "
+        "extract_hess_inv_diag: result[i] == H[i,i] for a dense linear operator at n <= 3 (quick) / 6 (thorough).",
+        extra_reports=[(kn, selector(PID))],
         extra_assumptions=["sign axioms of IEEE arithmetic without NaN: dot(v,v) >= 0; a,b >= 0 => a*b >= 0",
                            "restored (restart) elements: bit-exactness replaced by C06's real-arithmetic restore contract",
                            "chronological order of the stored points is not expressed (append-at-the-right / drop-at-the-"
                            "left is checked structurally by the deque model)",
-                           "SPD of the operator from positive-curvature pairs: standard two-loop lemma (SciPy's class)"],
+                           "SPD of the operator from positive-curvature pairs: standard two-loop lemma (SciPy's class)",
+                           "extract_hess_inv_diag: matvec(v) == todense() @ v (assumed, conformance-tested); fixed shapes"],
         what="clauses checked natively: pairs <= maxcor, are differences of visited iterates/gradients, s.y > 0")
